@@ -33,6 +33,7 @@ ASSUMPTIONS = [
     "mandatory keys are the constructor parameters not documented as optional (Rectifier: "
     "vdrop; PSwitch and PMux: none)",
     "TOML arrays are written homogeneous (all floats)",
+    "inline tables only for 1-row interpolation data (limitation of the toml package's parser)",
 ]
 
 SECTION = {k: k.lower() for k in S.KINDS}
@@ -78,10 +79,18 @@ def cases(draw):
         elif r == 2:
             # a half-migrated file: the deprecated key still present with its default 0
             kw["iq"] = draw(st.sampled_from([0.0, 0]))
-    return {"kind": kind, "kw": kw, "limits": lim, "spelling": spelling}
+    # (the third-party toml package cannot parse an inline table whose value array has
+    # several rows - TomlDecodeError before sysloss sees anything - so only 1-row tables
+    # are written inline)
+    inline = any(isinstance(v, dict) for v in kw.values()) and all(
+        len(v["vi"]) == 1 for v in kw.values() if isinstance(v, dict)) and draw(st.booleans())
+    return {"kind": kind, "kw": kw, "limits": lim, "spelling": spelling, "inline": inline}
 
 
-def write_toml(path, kind, kw, limits, spelling="ig"):
+def write_toml(path, kind, kw, limits, spelling="ig", inline=False):
+    """inline: interpolation data written as TOML inline tables
+    (`eff = {vi = [...], io = [...], eff = [[...]]}`) instead of `[kind.eff]` sub-tables."""
+    import json
     import toml
 
     sec = copy.deepcopy(kw)
@@ -91,11 +100,24 @@ def write_toml(path, kind, kw, limits, spelling="ig"):
             v = dict(v)
             v["iq"] = v.pop("ig")
         sec["iq"] = v
-    doc = {SECTION[kind]: sec}
-    if limits is not None:
-        doc["limits"] = limits
+    if not inline:
+        doc = {SECTION[kind]: sec}
+        if limits is not None:
+            doc["limits"] = limits
+        text = toml.dumps(doc)
+    else:
+        tables = {k: v for k, v in sec.items() if isinstance(v, dict)}
+        plain = {k: v for k, v in sec.items() if not isinstance(v, dict)}
+        text = toml.dumps({SECTION[kind]: plain})
+        if not text.strip():
+            text = "[{}]\n".format(SECTION[kind])
+        for k, v in tables.items():
+            text += "{} = {{ {} }}\n".format(
+                k, ", ".join("{} = {}".format(a, json.dumps(b)) for a, b in v.items()))
+        if limits is not None:
+            text += toml.dumps({"limits": limits})
     with open(path, "w") as f:
-        f.write(toml.dumps(doc))
+        f.write(text)
 
 
 def load(kind, path):
@@ -130,7 +152,9 @@ def body(case, stats):
     kind, kw, lim, sp = case["kind"], case["kw"], case["limits"], case["spelling"]
     with tempfile.TemporaryDirectory(prefix="vc13_") as d:
         path = os.path.join(d, "comp.toml")
-        write_toml(path, kind, kw, lim, sp)
+        write_toml(path, kind, kw, lim, sp, case.get("inline", False))
+        if case.get("inline"):
+            stats.cls("inline_table")
         try:
             a = load(kind, path)
         except Exception as e:
